@@ -27,6 +27,12 @@ type Parser struct {
 
 	inBacktick bool
 	recur      int64
+
+	// openBrackets counts the ( [ { forms being parsed; flushedEnd
+	// records that the pending token at the end of the input so far
+	// has already been terminated.
+	openBrackets int
+	flushedEnd   bool
 }
 
 type ParserReply struct {
@@ -66,6 +72,8 @@ func (p *Parser) Reset() {
 	}
 	p.sendMe = &ParserReply{}
 	p.yield = nil
+	p.openBrackets = 0
+	p.flushedEnd = false
 	p.lexer.Reset()
 }
 
@@ -80,6 +88,7 @@ func (p *Parser) Stop() error {
 }
 
 func (p *Parser) NewInput(s io.RuneScanner) {
+	p.flushedEnd = false
 	p.lexer.AddNextStream(s)
 }
 
@@ -91,6 +100,8 @@ func (p *Parser) ResetAddNewInput(s io.RuneScanner) {
 	}
 	p.yield = nil
 	p.sendMe = &ParserReply{}
+	p.openBrackets = 0
+	p.flushedEnd = false
 	p.lexer.Reset()
 	p.lexer.AddNextStream(s)
 }
@@ -254,6 +265,12 @@ func (parser *Parser) ParseExpression(depth int) (res Sexp, err error) {
 	tok, err := lexer.GetNextToken()
 	if err != nil {
 		return SexpEnd, err
+	}
+
+	switch tok.typ {
+	case TokenLParen, TokenLSquare, TokenLCurly:
+		parser.openBrackets++
+		defer func() { parser.openBrackets-- }()
 	}
 
 	switch tok.typ {
@@ -539,6 +556,20 @@ func (parser *Parser) ParseExpression(depth int) (res Sexp, err error) {
 	return SexpNull, fmt.Errorf("Invalid syntax, don't know what to do with '%v' (TokenType: %v)", tok, tok.typ)
 }
 
+// flushAtEnd is called when the input so far is exhausted. If no bracketed
+// form is open and the lexer holds the beginning of a token (the text did
+// not end in whitespace), the token is terminated as a final newline would
+// have, so that the last token of a text is not lost. Inside an open form
+// nothing is done: the token may continue in the next piece of input.
+func (parser *Parser) flushAtEnd() (flushed bool, err error) {
+	if parser.openBrackets > 0 || parser.flushedEnd || !parser.lexer.pendingAtEnd() {
+		return false, nil
+	}
+	parser.flushedEnd = true
+	err = parser.lexer.LexNextRune('\n')
+	return err == nil, err
+}
+
 // needOperand waits until the token that a reader prefix (' ^ ~ ~@)
 // applies to is available, asking for more input if the text so far
 // ends right after the prefix.
@@ -599,16 +630,12 @@ func (p *Parser) ParsingIter() iter.Seq[*ParserReply] {
 		var expr Sexp
 		var err error
 		const depth0 int = 0
-		flushed := false
 		for {
 			expr, err = p.ParseExpression(depth0)
-			if err == nil && expr == SexpEnd && !flushed && p.lexer.pendingAtEnd() {
-				// The text ended, at top level, in the middle of a token
-				// (no trailing whitespace). Terminate the token as a final
-				// newline would have, so that the last token is not lost.
-				flushed = true
-				err = p.lexer.LexNextRune('\n')
-				if err == nil {
+			if err == nil && expr == SexpEnd {
+				var flushed bool
+				flushed, err = p.flushAtEnd()
+				if flushed {
 					continue
 				}
 			}
@@ -786,6 +813,14 @@ func (parser *Parser) ParserPeekNextToken(extra int) (tok Token, err error) {
 		if tok.typ != TokenEnd {
 			return
 		} else {
+			var flushed bool
+			flushed, err = parser.flushAtEnd()
+			if err != nil {
+				return
+			}
+			if flushed {
+				continue
+			}
 			//instead of return SexpEnd, UnexpectedEnd
 			// we ask for more, and then loop
 
